@@ -167,13 +167,16 @@ Inductive event :=
 | EvSend                  (* a request reached the transport *)
 | EvCli (i : nat)         (* user client-level response middleware i invoked *)
 | EvReq (i : nat)         (* request-level response middleware i invoked *)
-| EvCond | EvHook.        (* retry condition evaluated / retry hook run *)
+| EvCond (i : nat) | EvHook (i : nat).   (* retry condition i evaluated / retry hook i run *)
+
+(* the client's error hook is a user function too: it may assign resp.Err and it may panic *)
+Record hookb := mkHook { h_set : option (option err); h_panic : option err }.
 
 Record config := mkCfg {
   c_targets  : targets;
   c_autoread : bool;             (* !client.disableAutoReadResponse && !r.isSaveResponse && !r.disableAutoReadResponse *)
-  c_onerror  : bool;             (* client.onError != nil *)
-  c_retry    : option (Z * bool);(* retryOption: MaxRetries, "custom RetryConditions present" *)
+  c_onerror  : option hookb;     (* client.onError, if set: what the user's hook does *)
+  c_retry    : option (Z * nat); (* retryOption: MaxRetries, number of RetryHooks *)
   c_reqerr   : option err;       (* Request.error collected by the setters *)
   c_unreplayable : bool          (* Request.unReplayableBody != nil (SetBody(io.Reader)) *)
 }.
@@ -186,8 +189,12 @@ Record attempt := mkAttempt {
   a_transport : tout;
   a_cli     : list mw;             (* user part of client.afterResponse (after parseResponseBody, handleDownload) *)
   a_req     : list mw;             (* Request.afterResponse *)
-  a_cond    : bool                 (* verdict of the custom retry conditions after this attempt *)
+  a_conds   : list bool;           (* verdicts of the custom RetryConditions (registration order) after this attempt; [] = none registered *)
+  a_ctxdone : bool;                (* r.Context().Err() != nil when do() looks after the round trip *)
+  a_sleep_cancel : bool            (* the context ends while do() waits for the next attempt *)
 }.
+
+Definition e_canceled : err := -10.   (* context.Canceled *)
 
 (* two flavours of the digest middleware: the repaired code and the pinned snapshot *)
 Inductive flavour := Fixed | Pinned.
@@ -382,14 +389,33 @@ Definition normalise (ro : option response) (e : option err) : response :=
   let r0 := match ro with Some r => r | None => fresh_resp end in
   match e, r_err r0 with Some x, None => set_err (Some x) r0 | _, _ => r0 end.
 
+(* RetryConditions are consulted from the last registered to the first until one says yes *)
+Fixpoint eval_conds_rev (vs : list bool) (i : nat) : bool * list event :=
+  match vs with
+  | [] => (false, [])
+  | v :: rest =>
+    if v then (true, [EvCond i])
+    else let '(b, l) := eval_conds_rev rest (pred i) in (b, EvCond i :: l)
+  end.
+Definition eval_conds (vs : list bool) : bool * list event := eval_conds_rev (rev vs) (pred (length vs)).
+
+(* RetryHooks run in reverse registration order *)
+Definition hook_events (nh : nat) : list event := map EvHook (rev (seq 0 nh)).
+
+(* contextCanceled := errors.Is(err, context.Canceled) || r.Context().Err() != nil *)
+Definition context_canceled (a : attempt) (e : option err) : bool :=
+  (match e with Some x => x =? e_canceled | None => false end) || a_ctxdone a.
+
 (* "absolutely cannot retry" / "no retry is needed": false = leave the loop.  Returns the
-   events of evaluating the (single) custom condition too. *)
+   events of evaluating the custom conditions and, on retry, of the hooks. *)
 Definition retry_decision (cfg : config) (a : attempt) (n : Z) (e : option err) : bool * list event :=
   match c_retry cfg with
   | None => (false, [])
-  | Some (mx, conds) =>
-    if (n >=? mx) && (mx >=? 0) then (false, [])
-    else if conds then (a_cond a, [EvCond]) else (is_some e, [])
+  | Some (mx, nh) =>
+    if context_canceled a e || ((n >=? mx) && (mx >=? 0)) then (false, [])
+    else
+      let '(need, l_c) := match a_conds a with [] => (is_some e, []) | vs => eval_conds vs end in
+      if need then (true, l_c ++ hook_events nh) else (false, l_c)
   end.
 
 (* one iteration of the loop of do(): either a `return` (the values of the named results
@@ -417,7 +443,11 @@ Definition do_attempt (fl : flavour) (cfg : config) (a : attempt) (n : Z) (prev 
     | None =>
       (* cf4fbf7: err keeps the round trip's value *)
       let '(again, l_c) := retry_decision cfg a n e in
-      if again then (Again (clear_for_retry r2), l ++ l_c ++ [EvHook])
+      if again then
+        if a_sleep_cancel a
+        then (* err = r.Context().Err(); resp.Err = err; return *)
+             (Stop (Some (set_err (Some e_canceled) r2)) (Some e_canceled), l ++ l_c)
+        else (Again (clear_for_retry r2), l ++ l_c)
       else (Stop (Some r2) e, l ++ l_c)
     end
   end
@@ -480,19 +510,30 @@ Definition do_call (fl : flavour) (cfg : config) (attempts : list attempt) : do_
 Definition resp_err (ro : option response) : option err :=
   match ro with Some r => r_err r | None => None end.
 
-(* Request.Send (and Get/Post/..., which only fix the method), Must-style wrappers *)
+(* Request.Send (and Get/Post/..., which only fix the method), Must-style wrappers:
+     resp := r.Do(); if resp.Err != nil && onError != nil { onError(..., resp, resp.Err) }; return resp, resp.Err
+   - the returned error is read AFTER the hook ran *)
+Definition finish (en : entry) (ro : option response) (ls : list (list event)) (h : nat) : outcome :=
+  match en, resp_err ro with
+  | EMust, Some x => Panicked x ls h
+  | _, e => Returned ro e ls h
+  end.
+
 Definition run (fl : flavour) (p : program) : outcome :=
   match do_call fl (p_cfg p) (p_attempts p) with
   | DoOutOfFuel => OutOfFuel
   | DoRet ro _ ls =>
     match p_entry p with
     | EDo => Returned ro None ls 0
-    | ESend | EMust =>
-      let e := resp_err ro in
-      let h := if is_some e && c_onerror (p_cfg p) then 1%nat else 0%nat in
-      match p_entry p, e with
-      | EMust, Some x => Panicked x ls h
-      | _, _ => Returned ro e ls h
+    | en =>
+      match resp_err ro, c_onerror (p_cfg p) with
+      | Some _, Some hb =>
+        let ro' := match h_set hb, ro with Some v, Some r => Some (set_err v r) | _, _ => ro end in
+        match h_panic hb with
+        | Some x => Panicked x ls 1
+        | None => finish en ro' ls 1
+        end
+      | _, _ => finish en ro ls 0
       end
     end
   end.
